@@ -29,15 +29,25 @@ class FakeDeadlock(BaseException):
 
 
 class Transport:
+    """
+    Schedule tokens: w >= 0 = "worker w sends its next message" (a worker that has sent everything has exited);
+    -1 = "nothing happens for the length of the parent's timeout" (get(timeout) raises Empty).  A message that has been
+    sent is delivered by the next get().  is_alive() lets one pending send happen first, which models a worker finishing
+    between the parent's timeout and its liveness check.  When the tokens are used up the remaining messages are sent
+    worker by worker.
+    """
+
     def __init__(self, nworkers, schedule, late):
         self.streams = [[] for _ in range(nworkers)]
-        self.pos = [0] * nworkers
+        self.sent = [0] * nworkers
+        self.pipe = []
+        self.pos = [0] * nworkers  # delivered per worker
         self.schedule = list(schedule)
         self.sched_pos = 0
         self.late = late
         self.gets = 0
         self.order = []  # worker index of each delivered message
-        self.started = []
+        self.empties = 0
         self.empty_polls = 0
         self.puts = 0
         self.max_messages = 50000
@@ -60,29 +70,54 @@ class Transport:
                     j = min(len(st) - 1, i + k)
                     m[2] = st[j][2] if j != i else m[2]
 
+    def _send(self, w):
+        n = len(self.streams)
+        for _ in range(n):
+            if self.sent[w] < len(self.streams[w]):
+                self.pipe.append((w, self.sent[w]))
+                self.sent[w] += 1
+                return True
+            w = (w + 1) % n
+        return False
+
+    def _step(self, allow_quiet):
+        """Consumes one token.  Returns "sent", "quiet" or None (no token left)."""
+        while self.sched_pos < len(self.schedule):
+            t = self.schedule[self.sched_pos]
+            self.sched_pos += 1
+            if t < 0:
+                if allow_quiet:
+                    return "quiet"
+                continue
+            if self._send(t % len(self.streams)):
+                return "sent"
+        return None
+
     # parent side
     def get(self, block=True, timeout=None):
-        n = len(self.streams)
-        live = [w for w in range(n) if self.pos[w] < len(self.streams[w])]
-        if not live:
-            self.empty_polls += 1
-            if timeout is None:
-                raise FakeDeadlock()
-            if self.empty_polls > 4:
-                raise FakeDeadlock()
-            raise _queue.Empty()
-        if self.sched_pos < len(self.schedule):
-            w = self.schedule[self.sched_pos] % n
-            self.sched_pos += 1
-        else:
-            w = live[0]
-        while self.pos[w] >= len(self.streams[w]):
-            w = (w + 1) % n
-        m = self.streams[w][self.pos[w]]
+        if not self.pipe:
+            r = self._step(allow_quiet=timeout is not None)
+            if r == "quiet":
+                self.empties += 1
+                raise _queue.Empty()
+            if r is None and not self._send(0):
+                # every worker has sent everything and everything was delivered
+                self.empty_polls += 1
+                if timeout is None or self.empty_polls > 4:
+                    raise FakeDeadlock()
+                raise _queue.Empty()
+        w, i = self.pipe.pop(0)
+        m = self.streams[w][i]
         self.pos[w] += 1
         self.gets += 1
         self.order.append(w)
         return (m[0], m[1], m[2])
+
+    def alive(self, w):
+        # something may happen between the parent's timeout and its liveness check
+        if self.sched_pos < len(self.schedule) and self.schedule[self.sched_pos] >= 0:
+            self._step(allow_quiet=False)
+        return self.sent[w] < len(self.streams[w])
 
     def total(self):
         return sum(len(s) for s in self.streams)
@@ -100,10 +135,9 @@ class FakeProcess:
         self.done = True
 
     def is_alive(self):
-        # a worker whose messages have not all been delivered is "still running" from the parent's view
+        # a worker is running until it has sent its last message
         t = FakeProcess.transport
-        idx = self.args[-2]
-        return t.pos[idx] < len(t.streams[idx])
+        return t.alive(self.args[-2])
 
     def terminate(self):
         pass
